@@ -450,4 +450,4 @@ def run_shard(ctx):
                 pass
         return t
 
-    ctx.run_given(mk, ctx.budget(12000, 250000))
+    ctx.run_given(mk, ctx.budget(12000, 150000))
